@@ -111,6 +111,11 @@ session inside OnStreamWriteError exposed C13-8); a listed finding's classifier 
 `srtp-stale-roc-after-wrap` would have hidden C01-8 until it was restricted to readers set up before the wrap); small in-process or
 child-process stages beside the model-tied harness (tunnel half reset, redirect after SETUP, concurrent tunnel writers) are a cheap
 way to give a multi-step scenario an oracle when the model does not have the step yet.
+(8) round 9 (`<id>-9`, 12 changes): a generator of well-formed inputs must decide well-formedness itself - the SDP generator asked
+`format.Generic.Init` and so dropped exactly the values C05-9 broke; timeouts need a scenario for every state a peer can fall silent in
+(C02-9: after SETUP) and with a third party talking (C19-9: the stolen session id refreshed the clock); the library's own client must be
+in the end-to-end auth path (C10-9); admission rules must be tried on the SECOND SETUP of a session (C17-9); a cap must be attacked
+repeatedly (C08-9: the counter went negative after the first overflow).
 ''' % (len(rows), len([r for r in rows if r[2] in ('caught', 'caught-by-correspondence')]), len(after), ', '.join(after), ', '.join(miss) or 'none'))
     return '\n'.join(out)
 
